@@ -117,7 +117,10 @@ Proof. induction 1; [reflexivity|]. rewrite (expect_constant _ _ _ H0). assumpti
 
 Lemma initial_expect : forall s0, In s0 all_initial -> st_expect s0 = spec_exit_code (st_script s0).
 Proof.
-  intros s0 H. unfold all_initial in H. apply in_flat_map in H as [sm [_ H]]. apply in_map_iff in H as [sc [<- _]]. reflexivity.
+  intros s0 H. unfold all_initial in H. apply in_app_or in H as [H|H]; [|apply in_app_or in H as [H|H]].
+  - unfold live_initial in H. apply in_flat_map in H as [sm [_ H]]. apply in_map_iff in H as [sc [<- _]]. reflexivity.
+  - apply in_map_iff in H as [sc [<- _]]. reflexivity.
+  - apply in_map_iff in H as [sc [<- _]]. reflexivity.
 Qed.
 
 Theorem no_hang_no_wrong_status : forall s0, In s0 all_initial -> forall s, reachable v_repaired s0 s ->
@@ -149,7 +152,8 @@ Proof. exists (initial false MachNone [LspShutdown; LspExit]). split; [vm_comput
 
 (* ------------------------------------------------------------------ partial repairs *)
 (* only the unwrap replaced: every run that should exit 0 hangs (main blocked in IoThreads::join: a Sender is alive) *)
-Lemma take_only_check : forallb (all_paths_to v_take_only hung depth_bound) wants_zero = true.
+Definition wants_zero_live : list state := filter (fun s => Nat.eqb (st_expect s) 0) live_initial.
+Lemma take_only_check : forallb (all_paths_to v_take_only hung depth_bound) wants_zero_live = true.
 Proof. vm_compute. reflexivity. Qed.
 (* + the sender dropped first: in every scenario some run still fails -- it hangs in DebugServer::join while the thread
    is in accept() or has gone back into it (flag set only in join), or the signalled session panics the debug thread *)
@@ -173,15 +177,15 @@ Proof.
     + eapply reach_step; [apply IHR; assumption | assumption].
 Qed.
 
-Lemma take_drop_check : forallb (some_path_to v_take_drop (bad v_take_drop) depth_bound) wants_zero = true.
+Lemma take_drop_check : forallb (some_path_to v_take_drop (bad v_take_drop) depth_bound) wants_zero_live = true.
 Proof. vm_compute. reflexivity. Qed.
 
-Theorem unwrap_fix_alone_hangs : forall s0, In s0 all_initial -> st_expect s0 = 0 ->
+Theorem unwrap_fix_alone_hangs : forall s0, In s0 live_initial -> st_expect s0 = 0 ->
   inev v_take_only hung depth_bound s0 /\
   exists s', reachable v_take_drop s0 s' /\ step v_take_drop s' = [] /\ clean_exit s' = false.
 Proof.
   intros s0 Hin E.
-  assert (W : In s0 wants_zero) by (unfold wants_zero; apply filter_In; split; [assumption | rewrite E; reflexivity]).
+  assert (W : In s0 wants_zero_live) by (unfold wants_zero_live; apply filter_In; split; [assumption | rewrite E; reflexivity]).
   split.
   - apply all_paths_to_sound. pose proof take_only_check as C. rewrite forallb_forall in C. apply C. assumption.
   - pose proof take_drop_check as C. rewrite forallb_forall in C. specialize (C _ W).
@@ -195,6 +199,30 @@ Qed.
    debug thread panics and DebugServer::join's expect() takes the process down with 101 *)
 Theorem select_arm_panics : exists s', reachable v_take_drop_wake (initial true MachNone [LspShutdown; LspExit]) s' /\ exits_with 101 s' = true.
 Proof. apply (some_path_to_sound _ _ depth_bound). vm_compute. reflexivity. Qed.
+
+(* the first repair (051876a) still ended with 101 when the debug thread had already died by a panic, and -- when it had
+   died holding the context lock -- at the first LSP message after that *)
+Lemma first_repair_dead_check :
+  forallb (all_paths_to v_first_repair (exits_with 101) depth_bound)
+          (filter (fun s => Nat.eqb (st_expect s) 0) (map (initial_dead false) all_scripts ++ map (initial_dead true) all_scripts)) = true.
+Proof. vm_compute. reflexivity. Qed.
+Theorem first_repair_dead_thread_panics : forall poisoned script, In script all_scripts -> spec_exit_code script = 0 ->
+  inev v_first_repair (exits_with 101) depth_bound (initial_dead poisoned script).
+Proof.
+  intros poisoned script Hin E. apply all_paths_to_sound. pose proof first_repair_dead_check as C. rewrite forallb_forall in C. apply C.
+  apply filter_In. split.
+  - apply in_or_app. destruct poisoned; [right | left]; apply in_map; assumption.
+  - cbn. rewrite E. reflexivity.
+Qed.
+(* and with the dead thread tolerated but the poisoned lock not recovered, the poisoned state still panics *)
+Theorem poison_needs_recovery : forall script, In script all_scripts -> spec_exit_code script = 0 ->
+  inev (mkVariant false true true true false true false) (exits_with 101) depth_bound (initial_dead true script).
+Proof.
+  intros script Hin E. apply all_paths_to_sound.
+  assert (C : forallb (all_paths_to (mkVariant false true true true false true false) (exits_with 101) depth_bound)
+                      (filter (fun s => Nat.eqb (st_expect s) 0) (map (initial_dead true) all_scripts)) = true) by (vm_compute; reflexivity).
+  rewrite forallb_forall in C. apply C. apply filter_In. split; [apply in_map; assumption | cbn; rewrite E; reflexivity].
+Qed.
 
 (* a handler registered before the blocking accept does not help on its own: the signal is only seen after accept returns *)
 Theorem register_first_not_enough :
